@@ -18,8 +18,11 @@ CONFIG = {
                      'handles answer Readdir(-1) with their full listing is exercised by the harness, not proved here',
                      'Go map iteration order of defaultUnionMergeDirsFn is unspecified: the model fixes one order, the harness compares '
                      'listings as sets per page boundary (canonical sort) — the theorems about names/NoDup/partition do not depend on the order',
-                     'copy-up / write-read-back theorems (C06_copy_up_preserves_partial, C06_write_read_back_partial) cover MemMapFs on both '
-                     'sides with the overlay parent directory present; other situations are covered by the per-step view oracle only'],
+                     'copy-up / write-read-back / failed-call theorems (C06_copy_up_preserves, C06_write_read_back, C06_write_overlay_file, '
+                     'C06_failed_call_view_unchanged) are for MemMapFs on both sides, every overlay state satisfying the C01 invariant WF and '
+                     'every rooted (failed calls: absolute) name; relative names, an overlay that holds a DIRECTORY under the name of a base '
+                     'file, and Rename whose overlay-level call is not well-formed are covered by the per-step view oracle only; a base '
+                     'directory carrying bytes is outside the statement (C06_failed_call_dir_with_bytes_refuted, corpus/C06/dir-with-bytes.case)'],
     'assumptions': ['both layers are kind-consistent for the view oracle (no path that is a file in one layer and a directory in the other); '
                     'kind conflicts are exercised for correspondence only',
                     'the program does not modify the layers behind the union\'s back while a union directory handle is being paged'],
